@@ -175,3 +175,63 @@ func countUpd(msgs []hwebsocket.Msg) int {
 	}
 	return n
 }
+
+// VerifC06Par: a member switches to another session while that session's last member leaves it (the switch
+// is then refused after the switcher has already left, or succeeds), and afterwards its connection ends.
+// Whatever the interleaving, the members it left are told about its departure exactly once, its entities are
+// deleted at most once each, and it is a ghost nowhere.
+func VerifC06Par() {
+	w := newVWorld(vModVikja | vModOdal)
+	lv, m1, t0 := w.newConn(), w.newConn(), w.newConn()
+	m1.mustJoin("")
+	lv.mustJoin(m1.sid)
+	t0.mustJoin("")
+	sidS, sidT := m1.sid, t0.sid
+	e := lv.addEntity(false, symPose())
+	ep := lv.addEntity(true, symPose())
+	oldPid := lv.pid
+	w.drainAll()
+	lv.pid = 0
+	verifnd.Par(func() { lv.join(sidT, 3) }, func() { t0.rh.HandleDisconnect(nil) })
+	switched := lv.pid != 0
+	// the connection ends, however the switch went
+	lv.rh.HandleDisconnect(nil)
+	got := m1.drain()
+	nLeave, nDel, nDelPers := 0, 0, 0
+	for _, m := range got {
+		switch typeNum(m) {
+		case int32(hagallpb.MsgType_MSG_TYPE_PARTICIPANT_LEAVE_BROADCAST):
+			var b hagallpb.ParticipantLeaveBroadcast
+			if m.DataTo(&b) == nil && b.ParticipantId == oldPid {
+				nLeave++
+			}
+		case int32(hagallpb.MsgType_MSG_TYPE_ENTITY_DELETE_BROADCAST):
+			var b hagallpb.EntityDeleteBroadcast
+			if m.DataTo(&b) == nil {
+				if b.EntityId == e {
+					nDel++
+				}
+				if b.EntityId == ep {
+					nDelPers++
+				}
+			}
+		}
+	}
+	name := "refused_after_leaving"
+	if switched {
+		name = "switched"
+	}
+	verifnd.Assert(nLeave == 1, "C06.par.remaining.told_once_about_departure", name)
+	verifnd.Assert(nDel == 1 && nDelPers == 0, "C06.par.remaining.told_once_per_removed_entity", name)
+	verifnd.Assert(lv.rh.CurrentSession() == nil && lv.rh.CurrentParticipant() == nil, "C06.par.connection_holds_no_session", name)
+	// S holds m1 alone plus the persistent entity; T is gone
+	p := w.newConn()
+	handed := viewFromJoin(p.join(sidS, 9))
+	verifnd.Assert(p.pid != 0, "setup.probe.joined")
+	verifnd.Assert(!handed.hasPart(oldPid) && len(handed.parts) == 2, "C06.par.no_ghost_in_left_session", name)
+	verifnd.Assert(handed.entIdx(e) < 0 && handed.entIdx(ep) >= 0, "C06.par.persistent_survive_others_removed", name)
+	_, tAlive := w.store.GetByGlobalID(sidT)
+	verifnd.Assert(!tAlive, "C06.par.emptied_session_ended", name)
+	verifnd.Reach("C06.par.done")
+	verifnd.Reach("C06.par." + name)
+}
